@@ -305,7 +305,7 @@ Proof.
 Qed.
 
 (* error clauses of the property *)
-Lemma create_existing_duplicate_pf : forall c m i v e b,
+Lemma create_existing_duplicate_pf : forall c (m : smap) (i : id) v e b,
   is_nil i = false -> (s_checks c && e_wrongtype e) = false -> m !! i = Some b ->
   spec_step c m (OCreate i v e) = (m, EDuplicate, []).
 Proof.
@@ -514,12 +514,17 @@ Lemma spec_step_commute_pf : forall c m o1 o2 m' x1 x2,
   run (spec_step c) m [o2; o1] = (m', [x2; x1]).
 Proof.
   intros c m o1 o2 m' x1 x2 Hne H. cbn [run] in *.
-  rewrite !spec_step_decide in *.
-  destruct (decide_op c (m !! touch c o1) o1) as [[w1 r1] c1] eqn:E1.
-  destruct (decide_op c (m !! touch c o2) o2) as [[w2 r2] c2] eqn:E2.
-  rewrite apply_wr_ne in H by congruence. rewrite E2 in H.
-  rewrite apply_wr_ne by congruence. rewrite E1.
-  inversion H; subst. rewrite apply_wr_comm by exact Hne. reflexivity.
+  destruct (spec_step c m o1) as [[ma r1] c1] eqn:S1.
+  destruct (spec_step c ma o2) as [[mb r2] c2] eqn:S2.
+  inversion H; subst; clear H.
+  rewrite spec_step_decide in S1.
+  destruct (decide_op c (m !! touch c o1) o1) as [[w1 r1'] c1'] eqn:E1. inversion S1; subst; clear S1.
+  rewrite spec_step_decide in S2.
+  rewrite apply_wr_ne in S2 by congruence.
+  destruct (decide_op c (m !! touch c o2) o2) as [[w2 r2'] c2'] eqn:E2. inversion S2; subst; clear S2.
+  rewrite (spec_step_decide c m o2). rewrite E2.
+  rewrite (spec_step_decide c _ o1). rewrite apply_wr_ne by congruence. rewrite E1.
+  rewrite (apply_wr_comm w1 w2 (touch c o1) (touch c o2) m Hne). reflexivity.
 Qed.
 
 (* regrouping a history id by id *)
